@@ -216,7 +216,28 @@ def rule_sibling_agreement(ck, repo, R):
     loop = [n for n in ast.walk(f.node) if isinstance(n, ast.For) and src(n.iter) == 'rules']
     ck.decide(len(loop) == 1 and any(isinstance(x, ast.Return) for x in ast.walk(loop[0])), R, 'first-match-wins', None,
               'calc_implicit no longer stops at the first matching rule', file=f.file, line=f.lineno)
-    ck.floor(R, 12)
+    # check_implicit asks "is there ANY rule with this hydrogen count whose environment matches" (elements list several H counts under one
+    # valence key, e.g. [S] / [SH2]); the count test is part of the per-rule predicate and only a full match returns True
+    f = repo.func(sites[1])
+    h_par = f.params()[-1]
+    loop = [n for n in ast.walk(f.node) if isinstance(n, ast.For) and src(n.iter) == 'rules']
+    ck.require(len(loop) == 1 and isinstance(loop[0].target, ast.Tuple) and len(loop[0].target.elts) == 3, 'check_implicit: rule loop not found')
+    hv = src(loop[0].target.elts[2])
+    ifs = [n for n in loop[0].body if isinstance(n, ast.If)]
+    ok = False
+    got = None
+    if len(ifs) == 1:
+        cs = {src(c) for c in conjuncts(ifs[0].test)}
+        got = sorted(cs)
+        has_h = f'{h_par} == {hv}' in cs or f'{hv} == {h_par}' in cs
+        rets = [x for x in ifs[0].body if isinstance(x, ast.Return)]
+        ok = has_h and core <= cs and len(rets) == 1 and src(rets[0].value) == 'True' and not ifs[0].orelse
+    tail = [x for x in f.node.body if isinstance(x, ast.Return)]
+    ck.decide(ok and tail and src(tail[-1].value) == 'False', R, 'check_implicit:exists-rule-with-count', got,
+              f'check_implicit must return True iff SOME rule has the requested count and a matching environment (`{h_par} == {hv} and s.issubset(..) and all(..)` -> return True; '
+              f'after the loop return False); found predicate {got}: deciding on the first rule whose environment matches rejects the secondary valence states of the tables',
+              file=f.file, line=loop[0].lineno, func=f.qualname)
+    ck.floor(R, 13)
 
 
 def rule_aromatic_carbon(ck, repo, R):
